@@ -227,7 +227,46 @@ func genC18(d *Draw) Case {
 		defs.Procs = append(defs.Procs, g)
 		return g
 	}
-	if d.N(4) == 3 {
+	if d.N(6) == 5 {
+		// two throw events of one process aimed at one catch event of another, which two tokens reach (behind
+		// tasks of their own): whatever the order of throws and arrivals, the catch event continues once per throw
+		g := mkProc("P1", true)
+		g.addNode(&Node{ID: "P1_Start", Kind: "start"})
+		g.addNode(&Node{ID: "P1_T1", Kind: "task"})
+		g.connect(defs, "P1_Start", "P1_T1", nil, -1)
+		g.addNode(&Node{ID: "TH1", Kind: "throw", Events: []EventDef{{Kind: "signal", Ref: "sC"}}})
+		g.connect(defs, "P1_T1", "TH1", nil, -1)
+		cur := "TH1"
+		if d.Bool() {
+			g.addNode(&Node{ID: "P1_T2", Kind: "task"})
+			g.connect(defs, cur, "P1_T2", nil, -1)
+			cur = "P1_T2"
+		}
+		g.addNode(&Node{ID: "TH2", Kind: "throw", Events: []EventDef{{Kind: "signal", Ref: "sC"}}})
+		g.connect(defs, cur, "TH2", nil, -1)
+		g.addNode(&Node{ID: "P1_End", Kind: "end"})
+		g.connect(defs, "TH2", "P1_End", nil, -1)
+		p2 := mkProc("P2", true)
+		p2.addNode(&Node{ID: "P2_Start", Kind: "start"})
+		p2.addNode(&Node{ID: "P2_F", Kind: "and"})
+		p2.connect(defs, "P2_Start", "P2_F", nil, -1)
+		p2.addNode(&Node{ID: "P2_C", Kind: "catch", Relaxed: true, Events: []EventDef{{Kind: "signal", Ref: "sC"}}})
+		for i := 1; i <= 2; i++ {
+			gt := fmt.Sprintf("P2_G%d", i)
+			p2.addNode(&Node{ID: gt, Kind: "task"})
+			p2.connect(defs, "P2_F", gt, nil, -1)
+			p2.connect(defs, gt, "P2_C", nil, -1)
+		}
+		p2.addNode(&Node{ID: "P2_T", Kind: "task"})
+		p2.connect(defs, "P2_C", "P2_T", nil, -1)
+		p2.addNode(&Node{ID: "P2_End", Kind: "end"})
+		p2.connect(defs, "P2_T", "P2_End", nil, -1)
+		defs.MsgFlows = append(defs.MsgFlows, [2]string{"TH1", "P2_C"}, [2]string{"TH2", "P2_C"})
+		defs.Signals = []string{"sC"}
+		desc = append(desc, "P1(T1 -> throw TH1 -> [T2] -> throw TH2), both => catch P2_C, which two tokens of P2 reach behind tasks G1, G2")
+		c.Tags = append(c.Tags, "message-flow", "two-throws-one-catch")
+		c.Hold = 1
+	} else if d.N(4) == 3 {
 		// burst: one executable process forks into k throw events, each instantiating its own waiting process
 		k := 2 + d.N(6)
 		g := mkProc("P1", true)
@@ -398,6 +437,7 @@ func checkC18(cc Case, r *simrt.Result) *Outcome {
 	completes, waits := 0, 0
 	ceaseSet := 0
 	catchLeaves := map[string]int{}
+	catchVisits := map[string]int{}
 	waitPanics := 0
 	findModel := func(node string, want func(m *Model) bool) *Model {
 		p := procOf(node)
@@ -432,6 +472,10 @@ func checkC18(cc Case, r *simrt.Result) *Outcome {
 				res, _ := ev.V.(map[string]any)
 				m.Answer(ev.A, res, nil)
 				afterStep()
+			}
+		case "t:visit":
+			if n := findNodeIn(c.Defs, ev.A); n != nil && n.Kind == "catch" {
+				catchVisits[ev.A]++
 			}
 		case "t:leave":
 			if n := findNodeIn(c.Defs, ev.A); n != nil && n.Kind == "catch" {
@@ -481,11 +525,25 @@ func checkC18(cc Case, r *simrt.Result) *Outcome {
 		}
 		// every throw instantiated its waiting target exactly once (the models were created per throw; a
 		// missing instantiation shows as skipped activities, an extra one as request-not-enabled)
+		// a catch event continues once per throw aimed at it, as far as tokens have arrived there to be woken
+		// (a throw that comes before its catch event listens is remembered)
+		aimed := map[string]int{}
+		var catches []string
 		for _, mf := range c.Defs.MsgFlows {
 			if tn := findNodeIn(c.Defs, mf[1]); tn != nil && tn.Kind == "catch" {
-				if catchLeaves[mf[1]] != thrown[mf[0]] {
-					vl.add("C18/catch-wake-count", "throw event %s was passed %d time(s) while catch event %s was listening, the catch event continued %d time(s)", mf[0], thrown[mf[0]], mf[1], catchLeaves[mf[1]])
+				if _, ok := aimed[mf[1]]; !ok {
+					catches = append(catches, mf[1])
 				}
+				aimed[mf[1]] += thrown[mf[0]]
+			}
+		}
+		for _, cid := range catches {
+			want := aimed[cid]
+			if catchVisits[cid] < want {
+				want = catchVisits[cid]
+			}
+			if catchLeaves[cid] != want {
+				vl.add("C18/catch-wake-count", "throw events aimed at catch event %s were passed %d time(s) and %d token(s) arrived there: it should have continued %d time(s), it continued %d time(s)", cid, aimed[cid], catchVisits[cid], want, catchLeaves[cid])
 			}
 		}
 		if allDone {
@@ -509,6 +567,7 @@ func checkC18(cc Case, r *simrt.Result) *Outcome {
 	probe(o, "process-finishes-at-once", trivial)
 	probe(o, "message-flow", len(c.Defs.MsgFlows) > 0)
 	probe(o, "throw-burst", hasTag(c.Tags, "throw-burst"))
+	probe(o, "two-throws-one-catch", hasTag(c.Tags, "two-throws-one-catch"))
 	probe(o, "repeated-or-concurrent-waits", c.Waits > 1)
 	o.Sample = map[string]any{"set": c.Desc, "buf": c.Buf}
 	return o
